@@ -9,6 +9,7 @@ import (
 	"errors"
 	"fmt"
 	"strings"
+	"sync"
 	"sync/atomic"
 
 	hms "github.com/smarthome-go/homescript/v3/homescript"
@@ -31,6 +32,7 @@ type Out struct {
 	// FailAt: the n-th WriteStringTo (1-based) returns an error; 0 = never.
 	FailAt int
 	Writes int
+	mu     *sync.Mutex // free mode only: the host's own lock around its buffer
 }
 
 type Chunk struct {
@@ -60,6 +62,10 @@ func (o *Out) Lines() []string {
 }
 
 func (o *Out) write(s string) error {
+	if o.mu != nil {
+		o.mu.Lock()
+		defer o.mu.Unlock()
+	}
 	o.Writes++
 	sim := simrt.Active()
 	if o.FailAt > 0 && o.Writes == o.FailAt {
